@@ -14,6 +14,14 @@ CLAIMED = {
          "TLC enumerates (operation x invalid-name class x store state); every edge is executed for several concrete names per class inside a sandbox tree (sibling store, decoys next to the base directory) whose complete before/after snapshot must be identical and whose result must be a failure/no-op.",
          "Names are class representatives (3-4 concrete strings per class), not all strings. Frontend leg and strace path invariant are separate parts of the check (see DESIGN 4/C03).",
          "4/C03"),
+ "C10": ("TLC deadlock + liveness check of the Agent module in every upgrade mode; wrong-variant counterexample replayed on the real dispatcher with gates; trace validation of seeded loads",
+         "TLC proves deadlock freedom and `every call returns` (under weak fairness of dispatcher, hooks consumer, upgrader) for the bounded Agent model in modes off/local/remote, and refutes the blocking self-send variant; that counterexample (update queue full + successful login of an upgradeable user) is converted into a gated scenario and executed on the real dispatcher at the real capacity, a watchdog plus goroutine dump decides wedged-or-not; seeded concurrent loads in all modes are recorded through the verif hooks and validated against TraceAgent.tla.",
+         "Bounded model (3 clients, 1-2 calls each, channel capacity 2, 1 user). Liveness on the code is observed as completion within a watchdog, not proved. Go's select choice is not forced.",
+         "4/C10"),
+ "C11": ("TLC invariants (AckedNotUndone) on Agent + trace validation of the real dispatcher against TraceAgent.tla with the exec.* hook as linearization point",
+         "Every recorded run of the real dispatcher (gated replays of TLC-simulated behaviours, the counterexample of the no-recheck variant, seeded concurrent loads over overlapping users) is checked line by line by TLC against TraceAgent.tla: each response must equal the sequential store semantics at its linearization point, acknowledged writes may only be changed by later client writes, and at idle the projected directory must equal the model's store and be valid.",
+         "Queues are abstracted to a bag of pending calls in the trace spec (FIFO order per channel is not checked). Frontend-level (socket) histories are covered by C04/C05, not here.",
+         "4/C11"),
 }
 
 checks = []
